@@ -3,6 +3,7 @@ CONSTANTS
     MaxN = 3
     Faults = TRUE
     NthOrder = "drop_then_advance"
-INVARIANTS IndexOK NoDoubleDrop NoStaleAccess
+    CloneOwner = "iterator_first"
+INVARIANTS IndexOK NoDoubleDrop NoStaleAccess NoCloneLeak
 VIEW View
 CHECK_DEADLOCK FALSE
